@@ -12,18 +12,19 @@ CONFIGS_THOROUGH = ["A", "R", "NOAPI"]
 TECHNIQUE = ("sibling-family rules over the impl table (absolute rule per member + agreement with the member's arity) and dominance rules on FangActionProc::bite's "
              "coroutine; must-alias value flow with variant tracking over the combinator-expanded MIR of the router's search")
 LEVEL_TEXT = ('Decides clauses C04-a..d and C04-f..i: each of the Fangs impls (blanket, unit, tuples 1-8) builds chain(f1, chain(f2, .. chain(fn, inner))) and hands '
-              'exactly that to BoxedFPC::from_proc (same nesting for openapi_map_operation); FangActionProc::bite calls the inner proc only on the Ok edge of fore, '
-              "back only after the inner proc, and returns the Err response without either; the four local-fang IntoHandler impls wrap the handler's own proc with "
-              'the fang tuple in declaration order and delegate n_params; every Routing impl (all arities) stores the tuple of its leading fang components in order '
-              "and applies each remaining component exactly once, in order; FangsList::into_proc_with seeds the fold with the first list's build of the handler proc "
-              'and wraps the rest in iteration order, for both the matched and the not-found proc of a node; when an application is mounted, every success path of '
-              "the per-method tree merge passes through the step that hands the mounted application's fangs to the mount point (no early success return before it); a"
-              " node's fang list grows only in FangsList::add, under a search of the whole list for the application id (no duplicate entry, so no fang runs twice); "
-              "the final tree's single-child compression absorbs a child only under tests that node, child and the node above carry the same fangs (two known "
-              'findings on the pinned tree: it does not, see known_findings.json); in Node::search_target (local helpers, std combinators and the closures handed to '
-              'them expanded) every answer reached from a successful pattern match, before another pattern matches, names the matched node (must-alias flow of that '
-              "node's reference through copies, re-borrows, tuples and Options), so a miss under a mount is handled by the catch that carries the mounted "
-              "application's fangs. Decides these clauses, not the order/scope across mounted applications after tree compression.")
+              'exactly that to BoxedFPC::from_proc (same nesting for openapi_map_operation); FangActionProc::bite calls the inner proc only on the Ok edge of fore, b'
+              "ack only after the inner proc, and returns the Err response without either; the four local-fang IntoHandler impls wrap the handler's own proc with the"
+              ' fang tuple in declaration order and delegate n_params; every Routing impl (all arities) stores the tuple of its leading fang components in order and '
+              "applies each remaining component exactly once, in order; FangsList::into_proc_with seeds the fold with the first list's build of the handler proc and "
+              'wraps the rest in iteration order, for both the matched and the not-found proc of a node; when an application is mounted, every success path of the pe'
+              "r-method tree merge passes through the step that hands the mounted application's fangs to the mount point (no early success return before it); a node'"
+              's fang list grows only in FangsList::add, under a search of the whole list for the application id (no duplicate entry, so no fang runs twice); the fin'
+              "al tree's single-child compression absorbs a child only under tests that node, child and the node above carry the same fangs (two known findings on th"
+              'e pinned tree: it does not, see known_findings.json); in Node::search_target (local helpers, std combinators and the closures handed to them expanded)'
+              " every answer reached from a successful pattern match, before another pattern matches, names the matched node (must-alias flow of that node's referenc"
+              "e through copies, re-borrows, tuples and Options), so a miss under a mount is handled by the catch that carries the mounted application's fangs. Route"
+              "r::apply_fangs hands an application's fangs to every per-method tree of the router (every base::Node field of base::Router), so no method is served wi"
+              'thout them. Decides these clauses, not the order/scope across mounted applications after tree compression.')
 
 FANG_CHAIN = r"^ohkami::fang::Fang::chain$"
 
